@@ -66,6 +66,10 @@ fn twice<F: Scalar>(p: &Params) {
                 (splits, pr)
             }
             3 => {
+                // constant data has zero variance in every class and no smoothing (epsilon = 1e-9 * largest variance):
+                // ln(0) in the likelihood -- not the subject here
+                let first = x[(0, 0)];
+                assume(SymB::any(&x.iter().map(|v| v.s_eq(first).not()).collect::<Vec<_>>()));
                 let m = linfa_bayes::GaussianNb::<F, usize>::params().fit(&Dataset::new(x.clone(), labels.clone())).expect("gnb");
                 let mut pr = m.predict(&q).to_vec();
                 pr.extend(m.predict(&x).iter());
